@@ -83,6 +83,35 @@ pub fn run(tier: &str, seed: u64, dir: &str) {
             sink.case(&op, &eval(&op), "join-history", true);
         }
     }
+    // fixed plans: a type-1 CFList that enables only 500 kHz channels (the first eight mask octets
+    // zero), a single 125 kHz channel, or nothing at all — it replaces the mask all the same; a first
+    // join and a re-join after a session that had another mask
+    for region in REGIONS {
+        if !is_fixed(region) {
+            continue;
+        }
+        for (k, m) in [[0u8, 0, 0, 0, 0, 0, 0, 0, 0x02], [0, 0, 0, 0, 0, 0, 0, 0, 0x81], [0; 9], [0, 0, 0, 0x10, 0, 0, 0, 0, 0], [0xff, 0xff, 0, 0, 0, 0, 0, 0, 0x01]].into_iter().enumerate() {
+            let mut h = Hist::new("C11", region, 20, 0, 500 + k as u64, &[], None);
+            h.go_live();
+            for (round, mask) in [[0xffu8, 0, 0, 0, 0, 0, 0, 0, 0xff], m].into_iter().enumerate() {
+                if round == 0 && k % 2 == 0 {
+                    continue; // first join straight away
+                }
+                h.ev("otaa");
+                let devaddr = 0x0100_0000 + (rng.next() as u32 & 0xffffff);
+                let root = h.root;
+                let acc = build_join_accept(&root, devaddr, 0, 1, &CfDesc::Fixed(mask));
+                h.snap();
+                h.rx_bytes(if (k + round) % 2 == 0 { "rx1" } else { "rx2" }, 5, &acc, None);
+                h.devaddr = devaddr;
+                h.last_down = None;
+                h.snap();
+            }
+            let op = h.done();
+            sink.case(&op, &eval(&op), "cflist-type1-fixed-plan", true);
+        }
+    }
+
     // device level: both front-ends with the scripted radio (see adevgen::add_dev_classes)
     crate::adevgen::add_dev_classes("C11", &mut rng, &mut sink, thorough, eval);
     sink.finish(dir, "per region: all 256 DLSettings bytes x RxDelay {0,1,2,15} x CFList {none, type 0 with in-band/zero/out-of-band frequencies, type 1 mask, RFU type}, arriving in RX1 or RX2 (full grid in thorough, a quarter in quick); joins with changing credential sets after failed and successful attempts; random histories of failed attempts, wrong-key accepts and re-joins from a joined state. The JoinRequest is checked against the §6.2.4 layout and its MIC, the session keys against the §6.2.5 derivation. Non-trivial = every case.", false, serde_json::json!({}));
